@@ -91,7 +91,9 @@ def run (op impl : String) : Ans :=
       else
         let (v, tags) := judge s (impl.splitOn ";") 0 0 []
         let nt := impl.startsWith "R," || tags.any (fun t => t.startsWith "rej-" && t != "rej-incomplete" && t != "rej-request-line")
-        { model := m, verdict := v, tags := tags ++ (if nt then ["nt"] else []) }
+        let cl := if cleanRequest s then [if impl.startsWith "R," && !impl.startsWith "R,,"
+                                            then "clean-first-req" else "clean-first-req-rejected"] else []
+        { model := m, verdict := v, tags := tags ++ cl ++ (if nt then ["nt"] else []) }
   | _ => { model := "bad-op", verdict := "skip" }
 
 end BfeVerif.C24
